@@ -64,12 +64,12 @@ func c12Signed[I signedInt](kind string, gen func() *rapid.Generator[I], bits in
 			}
 			seen[name] = true
 			g := gen()
-			style := len(cs) % 4
+			style := len(cs) % 5
 			cs = append(cs, c12Case{top: bits == 64 && (th >= 1<<61 || th <= -(1<<61)), name: name, want: fmt.Sprint(want), depth: 4, prop: func(t *rapid.T, out *string) {
 				x := int64(g.Draw(t, "x"))
 				*out = fmt.Sprint(x)
 				if (dir == ">=" && x >= th) || (dir == "<=" && x <= th) {
-					c12Fail(t, style, fmt.Sprint(x), int(x))
+					c12Fail(t, style, fmt.Sprint(x), int(x), x > 1<<20 || x < -(1<<20))
 				}
 			}})
 		}
@@ -103,12 +103,12 @@ func c12Unsigned[I unsignedInt](kind string, gen func() *rapid.Generator[I], bit
 		seen[th] = true
 		th := th
 		g := gen()
-		style := len(cs) % 4
+		style := len(cs) % 5
 		cs = append(cs, c12Case{top: bits == 64 && th >= 1<<62, name: fmt.Sprintf("%s x>=%d", kind, th), want: fmt.Sprint(th), depth: 3, prop: func(t *rapid.T, out *string) {
 			x := uint64(g.Draw(t, "x"))
 			*out = fmt.Sprint(x)
 			if x >= th {
-				c12Fail(t, style, fmt.Sprint(x), int(x))
+				c12Fail(t, style, fmt.Sprint(x), int(x), x > 1<<20)
 			}
 		}})
 	}
@@ -433,8 +433,10 @@ func init() {
 
 // c12Fail: the ways a threshold property fails in practice. The threshold properties of one kind
 // take turns: Fatalf, a panic and a run-time error whose texts name the drawn value (so every
-// smaller counterexample fails with another text, at the same place), and a non-fatal Errorf.
-func c12Fail(t *rapid.T, style int, x string, idx int) {
+// smaller counterexample fails with another text, at the same place), a non-fatal Errorf, and
+// non-fatal calls that rapid notices at different moments (a Cleanup function reports every failing
+// value, the body reports the far ones as well): failing only through non-fatal calls is ONE site.
+func c12Fail(t *rapid.T, style int, x string, idx int, far bool) {
 	switch style {
 	case 0:
 		t.Fatalf("beyond threshold: %s", x)
@@ -443,8 +445,13 @@ func c12Fail(t *rapid.T, style int, x string, idx int) {
 	case 2:
 		var empty []int
 		_ = empty[idx|1<<40] // index out of range [N] with length 0, N names the value
-	default:
+	case 3:
 		t.Errorf("beyond threshold: %s", x)
+	default:
+		t.Cleanup(func() { t.Errorf("beyond threshold (reported by a cleanup): %s", x) })
+		if far {
+			t.Errorf("far beyond threshold: %s", x)
+		}
 	}
 }
 
